@@ -10,7 +10,7 @@ meta.json naming the property):
   * run the quick (or --tier thorough) check with VERIF_REPO=<scratch>,
     expecting exit code 1 and a VIOLATION line,
   * remove the scratch dir.
-Results are merged into mutants/REPORT.json.
+Results are merged into REPORT.json next to the patch.
 """
 import argparse
 import glob
@@ -73,15 +73,18 @@ def main():
         glob.glob(os.path.join(VERIF, "mutants", "*", "*.patch")) +
         glob.glob(os.path.join(VERIF, "seeded", "*", "patch.diff")))
     stable, allowed = baseline_allowed_failures()
-    report_path = os.path.join(VERIF, "mutants", "REPORT.json")
-    report = {}
-    if os.path.exists(report_path):
-        with open(report_path) as f:
-            report = json.load(f)
     rc = 0
     for patch in patches:
         patch = os.path.abspath(patch)
         key = os.path.relpath(patch, VERIF)
+        # one report per directory (several people run this in parallel)
+        report_path = os.path.join(os.path.dirname(patch), "REPORT.json")
+        if "proposed_fixes" in key:
+            report_path = None
+        report = {}
+        if report_path and os.path.exists(report_path):
+            with open(report_path) as f:
+                report = json.load(f)
         scratch = tempfile.mkdtemp(prefix="vpbt-mut-", dir="/tmp")
         try:
             subprocess.check_call(
@@ -133,8 +136,9 @@ def main():
             report[key] = entry
         finally:
             shutil.rmtree(scratch, ignore_errors=True)
-    with open(report_path, "w") as f:
-        json.dump(report, f, indent=1, sort_keys=True)
+            if report_path:
+                with open(report_path, "w") as f:
+                    json.dump(report, f, indent=1, sort_keys=True)
     return rc
 
 
